@@ -357,6 +357,9 @@ func (w *World) DoNoQuiesce(r Req) (resp Resp) {
 				}
 				resp.Panic = fmt.Sprintf("%v\n%s", p, stackOf())
 				resp.PanicAt = panicSite()
+				if os.Getenv("VERIF_PANICSTACK") != "" {
+					fmt.Fprintf(os.Stderr, "PANIC %v\n%s\n", p, debugStack())
+				}
 			}
 		}()
 		w.S.ServeHTTP(rec, req)
